@@ -215,8 +215,14 @@ class Type3Tag(nfc.tag.Tag):
             last_block_number = 1 + (attributes['ln'] + 15) // 16
             data = bytearray()
 
-            for i in range(1, last_block_number, attributes['nbr']):
-                last_block = min(i + attributes['nbr'], last_block_number)
+            # A read response can not carry more than 15 data blocks.
+            nbr = min(attributes['nbr'], 15)
+            if nbr == 0:
+                log.debug("the tag does not allow to read any block")
+                return None
+
+            for i in range(1, last_block_number, nbr):
+                last_block = min(i + nbr, last_block_number)
                 block_list = range(i, last_block)
                 try:
                     data += self.tag.read_from_ndef_service(*block_list)
